@@ -19,14 +19,20 @@ checks = {
          "behaviour after the first ERROR token is outside (driver skips to end of line)"),
  "C03": ("generated parse()/_act() on symbolic token sequences with symbolic Discard() bits; on every accepting path the action log is checked by a derivation-tree checker (one call per user node, post-order, arguments identical to the child results / shifted tokens, sugar values as documented). n<=5 / n<=8.",
          "corpus grammars; uniqueness of the derivation tree rests on lox having accepted the grammar"),
+ "C04": ("reduced form. The whole of ConstructLALR (closure, goto, look-ahead propagation, createActions, resolveConflicts) is executed on seven small conflict grammars built through the real Grammar API with the Precedence (64-bit) and Associativity of every production symbolic: conflicts are reported exactly when some production of a same-rule shift/reduce pair lacks a qualifier; reduce/reduce, cross-rule and three-way conflicts are never hidden for any qualifier values; resolved tables have one action per cell with the documented direction where the documentation is unambiguous. ItemSet.LR0Key on item sets of symbolic items: keys equal iff LR(0) kernels equal.",
+         "grammar shapes are fixed; the verdict for arbitrary grammars (rejecting an LALR(1) grammar, accepting a non-LALR(1) one outside these shapes) is structural and not decided; language equality of accepted grammars is C01"),
  "C05": ("generated parsers of 14 operator tables on symbolic token sequences (n<=5 / n<=9): language equals the expression language and the action tree equals the tree of a precedence-climbing reference parser. The equal-level @right defect is reported as a known finding through a defect-model classifier.",
          "operator tables are enumerated; mixed associativity at one level excluded as undocumented"),
  "C09": ("generated parse()/_recover()/_makeError() on symbolic token sequences including lexer ERROR tokens over 12 @error placements (n<=4 / n<=6): step-budget overruns are termination candidates (replayed natively), no panic, non-sentences never accepted silently, first delivered Error carries the first non-viable token (viable-prefix recogniser over the reference CNF), recovered trees are derivation trees with @error stretches.",
          "corpus grammars; budget 3M SSA steps per path"),
  "C10": ("kernel checks over arbitrary table contents: (1) the real table[int32|uint32].AddRow/Array/rowKey with symbolic cells and hole patterns — decoding Array() by the documented layout returns exactly the rows, missing indices are -1, index cells stay inside, shared rows are equal (varint keys compared by the solver); (2) the generated _Find on an arbitrary well-formed table, row and key; (3) two steps of the generated PushRune on an arbitrary sorted-disjoint row with symbolic bounds, targets and non-greedy flag (binary search, accept after consumption, no empty match). Together with the per-item differentials of C01/C02/C07 (tables emitted for corpus specs behave as the rules for all inputs within bounds).",
          "table shapes bounded (<=3 rows x 2 cells quick; the whole-language product construction of DESIGN 4/C10 part 4 is not built: equivalence over all strings is claimed only up to the input bounds of C01/C02)"),
+ "C13": ("map-iteration dimension only. The iteration order of Go's built-in maps is an explicit oracle of the engine (a solver variable per map size and path, all n! orders for n<=4, rotations and reversals above): stablemap.Map under arbitrary Put/Remove/Clear sequences with arbitrary keys keeps insertion order; ModeBuilder.Build (normalizeInputs, NFAToDFA, optimize, mergeTransitions, pickAction) on three rule sets and ConstructLALR on an expression grammar produce identical serialised automata / tables under every explored order.",
+         "stale files, working directories and other processes have no encoding here; map ranges in codegen that need go/types objects are read, not executed"),
  "C15": ("rang3 Contains/Intersects/Touches/Compare/Flatten/Subtract/Normalize (with container/heap, slices.SortFunc, stack) executed on arbitrary ranges 0<=B<=E<=U+10FFFF and an arbitrary probe code point: set-theoretic membership, sortedness, exact-union and pairwise-disjointness assertions decided for all values. k<=3 (Flatten), 2x2 (Subtract), k<=2 (Normalize) quick; 4, 3x3, 3 thorough.",
          "sort.Slice modelled as insertion sort calling the real less; list lengths bounded"),
+ "C18": ("by reduction, not by exploring schedules: two instances (parsers of 9 items incl. error recovery and _onBounds variants, lexers of 4 items) run one after the other inside one symbolic execution under a memory monitor (every cell read, written, appended to or copied, every map touched); asserted: no cell written by one instance is touched by the other, no write reaches a cell reachable from package-level variables, and a third fresh instance reproduces the first one's result. Counterexamples are replayed natively with the two instances on two goroutines under go test -race.",
+         "disjoint footprints + read-only globals => race-free and sequentially equivalent is a meta-argument from the Go memory model; two instances only; second instance on a fixed input"),
  "C19": ("_TokenToString executed on a symbolic int for 8 numbering items (modes, @external, @emit-only tokens, two files, tokens the parser never mentions): name of terminal t for every declared constant, \"???\" for every other int value; EOF=0, ERROR=1 and dense declaration order are read back from the generated constants (concrete precondition); the lexer and parser differentials on the same items refer to token kinds only through the generated constants' names, so a table keyed by other numbers shows up as a mismatch.",
          "numbering itself is a concrete read-back, not solver-decided"),
  "C16": ("the _onBounds variant of every language-corpus grammar: the exact sequence of _onBounds calls (result identity, first/last token, position relative to the actions) is derived from the checked derivation tree and compared on every accepting path; n<=5 / n<=8.",
@@ -36,7 +42,7 @@ checks = {
 not_applicable = {
  "C14": "byte-for-byte comparison of one concrete computation with files on disk; no input a solver could range over (DESIGN.md section 5)",
 }
-pending = ["C04","C06","C12","C13","C17","C18"]
+pending = ["C06","C12","C17"]
 
 def main():
     m = {
